@@ -223,7 +223,7 @@ fn universe_case(rng: &mut Rng, rep: &mut Report, case: u64, thorough: bool) {
     let size_class = case % 10;
     let cfg = GenCfg {
         poms: match size_class { 0 | 1 => (3, 6), 2..=6 => (6, 16), _ => (16, 40) },
-        allow_override: case % 7 == 3,
+        allow_override: case % 5 == 3,
         repos: 1 + (case % 3) as usize,
         cap_pom: 900, cap_total: 2500,
     };
@@ -448,9 +448,10 @@ fn main() {
     let mut rep = Report::new();
     let thorough = ctx.tier == Tier::Thorough;
     let n = ctx.tier.pick(10_000, 300_000);
-    run_cases(&ctx, &replay, &mut rep, "universes", n, |rng, rep, i| universe_case(rng, rep, i, thorough));
     let n_text = ctx.tier.pick(30_000, 600_000);
+    // the short workload first: a starved run then still ends inside the long one, whose obligations are met early
     run_cases(&ctx, &replay, &mut rep, "text", n_text, |rng, rep, i| { if i == 0 { scope_text(rep); } text_case(rng, rep) });
+    run_cases(&ctx, &replay, &mut rep, "universes", n, |rng, rep, i| universe_case(rng, rep, i, thorough));
 
     let mut meta = Meta::new("exploration",
         "acyclic universes of 3-40 POMs (libraries in up to 4 versions, pom-packaged parents in chains of up to 3, BOMs imported by POMs and by BOMs, management at every level, \
